@@ -233,6 +233,9 @@ def configs(tier):
                     # mixed: first explicit high, rest implicit after it wraps? (implicit continues after it)
                     out.append(dict(part=1, dw=dw, tree=dec(aw_root, [sub(stub(aws[0]), addr=slots[1])] +
                                                             [sub(stub(a)) for a in aws[1:]], align)))
+        # a single window that fills the decoder's whole address space (no constant pattern bits at all)
+        out.append(dict(part=1, dw=dw, tree=dec(3, [sub(stub(3))])))
+        out.append(dict(part=1, dw=dw, tree=dec(4, [sub(dec(3, [sub(stub(3), name="all")]), name="half"), sub(stub(2))])))
         # nested decoders, two deep
         out.append(dict(part=1, dw=dw, tree=dec(5, [sub(stub(2)), sub(dec(3, [sub(stub(1)), sub(stub(2), name="x")])),
                                                     sub(stub(1), name="y")])))
